@@ -151,18 +151,19 @@ def run_query(A, q):
         if k == "prefix":
             return {"ok": list(A.initial_accepted_subword(pyword(q["w"])))}
         if k == "rejprefix":
-            return {"ok": list(A.initial_rejected_subword(pyword(q["w"])))}
+            r = A.initial_rejected_subword(pyword(q["w"]))
+            return {"ok": None if r is None else list(r)}
         if k == "enum_fixed":
-            return {"ok": [[list(w), e] for w, e in A.enumerate_fixed_length_paths(q["n"], start_vertex=q.get("v"), with_states=True)]}
+            return {"ok": [[list(w), e] for w, e in U.capped(A.enumerate_fixed_length_paths(q["n"], start_vertex=q.get("v"), with_states=True))]}
         if k == "enum_words":
-            return {"ok": [[list(w), e] for w, e in A.enumerate_words(q["n"], start_vertex=q.get("v"), with_states=True)]}
+            return {"ok": [[list(w), e] for w, e in U.capped(A.enumerate_words(q["n"], start_vertex=q.get("v"), with_states=True))]}
         if k == "multiple":
             with U.time_limit(MULT_SECONDS):
                 return {"ok": U.views(A.automaton_multiple(q["k"]))}
         if k == "multiple_enum":
             with U.time_limit(4 * MULT_SECONDS):
                 B = A.automaton_multiple(q["k"])
-                return {"ok": [[[w] if w else [], e] for w, e in B.enumerate_words(q["n"], with_states=True)]}
+                return {"ok": [[[w] if w else [], e] for w, e in U.capped(B.enumerate_words(q["n"], with_states=True))]}
         if k == "rename":
             return {"ok": U.views(A.rename_generators(dict(map(tuple, q["m"])), inplace=False))}
         if k == "recurrent":
@@ -172,6 +173,8 @@ def run_query(A, q):
         if k == "views":
             return {"ok": U.views(A)}
     except Exception as e:
+        if type(e).__name__ == "Timeout":       # the runner's own deadline
+            raise
         return {"err": type(e).__name__}
     raise ValueError(k)
 
@@ -250,54 +253,103 @@ def gen_ops_corr(rng, n):
 
 
 # ------------------------------------------------------------------ oracle: the walks and the enumerators
-def run_lang_oracle(inp):
-    A, ref = make(inp)
+def check_lang(A, ref, wmax, nmax, bad, tag):
+    """every query family against the reference language, from the default start and from explicit start vertices"""
     starts = list(A.start_vertices)
     ls = labels_of(ref) + ["z"]
-    before = U.views(A)
-    bad = []
     vs = sorted(ref.V, key=U.key)
-    for sv in [None] + vs[:3]:
+    n0 = len(bad)
+    for sv in [None] + vs[:3] + ["nowhere"]:          # "nowhere" is not a state: only the empty word is accepted from it
         if sv is None and (not starts or starts[0] not in ref.V):
             continue
         s0 = starts[0] if sv is None else sv
-        for w in words_upto(ls, inp["wmax"]):
+        if sv == "nowhere":
+            for w in itertools.islice(words_upto(ls, 2), 0, 8):
+                pw = pyword(w)
+                if A.accepts(pw, start_vertex=sv) != (len(w) == 0):
+                    bad.append([tag, "accepts", sv, pw])
+                try:
+                    got = A.follow_word(pw, start_vertex=sv)
+                except FSAException:
+                    got = None
+                if (got == sv) != (len(w) == 0) or (got is not None and len(w) > 0):
+                    bad.append([tag, "follow_word", sv, pw, repr(got)])
+            continue
+        for w in words_upto(ls, wmax):
             end = ref.follow(s0, w)
             pw = pyword(w)
             acc = A.accepts(pw, start_vertex=sv)
-            if acc != (end is not None):
-                bad.append(["accepts", sv, pw, acc])
+            # start_vertex=None: "any start state is allowed"
+            want_acc = (end is not None) if sv is not None else any(x in ref.V and ref.follow(x, w) is not None for x in starts)
+            if acc != want_acc:
+                bad.append([tag, "accepts", sv, pw, acc])
             try:
                 got = A.follow_word(pw, start_vertex=sv)
             except FSAException:
                 got = None
             if got != end or (got is None) != (end is None):
-                bad.append(["follow_word", sv, pw, repr(got), repr(end)])
+                bad.append([tag, "follow_word", sv, pw, repr(got), repr(end)])
             if sv is None:
                 best = max((w[:j] for j in range(len(w) + 1) if ref.follow(s0, w[:j]) is not None), key=len)
                 if list(A.initial_accepted_subword(pw)) != list(best):
-                    bad.append(["initial_accepted_subword", pw, A.initial_accepted_subword(pw)])
-                rej = list(A.initial_rejected_subword(pw))
-                want = list(w) if end is not None else list(w[:len(best) + 1])
+                    bad.append([tag, "initial_accepted_subword", pw, A.initial_accepted_subword(pw)])
+                rej = A.initial_rejected_subword(pw)
+                rej = None if rej is None else list(rej)
+                want = None if end is not None else list(w[:len(best) + 1])     # None exactly for accepted words
                 if rej != want:
-                    bad.append(["initial_rejected_subword", pw, rej])
+                    bad.append([tag, "initial_rejected_subword", pw, rej])
         tot = []
-        for n in range(inp["nmax"] + 1):
+        for n in range(nmax + 1):
             want = collections.Counter(("".join(w), repr(e)) for w, e in ref.lang(s0, n))
-            got = collections.Counter((w, repr(e)) for w, e in A.enumerate_fixed_length_paths(n, start_vertex=sv, with_states=True))
+            got = collections.Counter((w, repr(e)) for w, e in U.capped(A.enumerate_fixed_length_paths(n, start_vertex=sv, with_states=True)))
             if got != want:
-                bad.append(["enumerate_fixed_length_paths", sv, n, sorted(got.elements())[:6], sorted(want.elements())[:6]])
-            plain = collections.Counter(A.enumerate_fixed_length_paths(n, start_vertex=sv))
+                bad.append([tag, "enumerate_fixed_length_paths", sv, n, sorted(got.elements())[:6], sorted(want.elements())[:6]])
+            plain = collections.Counter(U.capped(A.enumerate_fixed_length_paths(n, start_vertex=sv)))
             if plain != collections.Counter(w for w, _ in want.elements()) or any(c > 1 for c in plain.values()):
-                bad.append(["enumerate_fixed_length_paths(with_states=False)", sv, n])
+                bad.append([tag, "enumerate_fixed_length_paths(with_states=False)", sv, n])
             tot += sorted(want.elements())
-            gw = collections.Counter((w, repr(e)) for w, e in A.enumerate_words(n, start_vertex=sv, with_states=True))
+            gw = collections.Counter((w, repr(e)) for w, e in U.capped(A.enumerate_words(n, start_vertex=sv, with_states=True)))
             if gw != collections.Counter(tot):
-                bad.append(["enumerate_words", sv, n])
-        if bad:
+                bad.append([tag, "enumerate_words", sv, n])
+            gp = collections.Counter(U.capped(A.enumerate_words(n, start_vertex=sv)))
+            if gp != collections.Counter(w for w, _ in tot):
+                bad.append([tag, "enumerate_words(with_states=False)", sv, n])
+        if len(bad) > n0:
             break
+
+
+def run_lang_oracle(inp):
+    """the query families are re-examined after every step of a history on ONE object: re-rooting (assignment to
+    start_vertices, edits of the list object) and graph edits between the queries"""
+    A, ref = make(inp)
+    bad = []
+    before = U.views(A)
+    check_lang(A, ref, inp["wmax"], inp["nmax"], bad, "initial")
     if U.views(A) != before and U.canon(U.views(A)) != U.canon(before):
         bad.append(["queries-changed-the-automaton"])
+    for n, st in enumerate(inp.get("steps", [])):
+        if bad:
+            break
+        k = st["k"]
+        if k == "assign":
+            A.start_vertices = list(st["v"])
+        elif k == "setitem":
+            if not A.start_vertices:
+                continue
+            A.start_vertices[0] = st["v"]
+        elif k == "insert":
+            A.start_vertices.insert(0, st["v"])
+        elif k == "append":
+            A.start_vertices.append(st["v"])
+        elif k == "op":
+            if not ref.valid(st["op"]):
+                break
+            A = U.apply_op(A, st["op"])
+            ref.apply(st["op"])
+        check_lang(A, ref, inp["wmax2"], inp["nmax"], bad, "after step %d (%s)" % (n, k))
+        pb = U.coherence_problems(U.views(A), ref)
+        if pb:
+            bad.append(["views-after-step", n, k] + pb)
     return {"bad": bad[:4]}
 
 
@@ -314,11 +366,44 @@ def judge_bad(what):
 def gen_lang_oracle(rng, n):
     for a in gen_automata(rng, n):
         a = dict(a)
-        a["wmax"], a["nmax"] = 4, 4
+        a["wmax"], a["wmax2"], a["nmax"] = 4, 3, 4
+        _, ref = U.build(a["init"])
+        for op in a["ops"]:
+            ref.apply(op)
+        vs, ls = U.universe(a["init"])
+        steps = []
+        for _ in range(rng.choice([0, 1, 2, 3, 4])):
+            pool = sorted(ref.V, key=U.key) or [0]
+            k = rng.choice(["assign", "assign", "setitem", "insert", "append", "op", "op"])
+            if k == "assign":
+                steps.append({"k": k, "v": [rng.choice(pool) for _ in range(rng.choice([1, 1, 1, 2]))]})
+            elif k == "op":
+                op, ok = U.rand_op(rng, ref, vs, ls, 0.0, fresh=False)
+                if op["k"] == "rename":
+                    continue
+                ref.apply(op)
+                steps.append({"k": "op", "op": op})
+            else:
+                steps.append({"k": k, "v": rng.choice(pool)})
+        a["steps"] = steps
         yield a
 
 
 # ------------------------------------------------------------------ oracle: k-multiple / even
+def multiple_ref(ref, starts, k):
+    """the k-step reachable closure of the start vertices with one edge per k-walk"""
+    reach, todo = set(starts), list(starts)
+    E = set()
+    while todo:
+        v = todo.pop()
+        for w, e in ref.lang(v, k):
+            E.add((v, "".join(w), e))
+            if e not in reach:
+                reach.add(e)
+                todo.append(e)
+    return U.Ref(reach, E)
+
+
 def run_multiple_oracle(inp):
     A, ref = make(inp)
     starts = list(A.start_vertices)
@@ -333,7 +418,7 @@ def run_multiple_oracle(inp):
             with U.time_limit(4 * MULT_SECONDS):
                 B = A.even_automaton() if k == 2 and inp.get("even") else A.automaton_multiple(k)
                 nb = inp["nmax"] // max(k, 1)
-                got = collections.Counter(B.enumerate_words(nb))
+                got = collections.Counter(U.capped(B.enumerate_words(nb)))
         except U.CallTimeout:
             bad.append(["multiple-did-not-return", k, "reference loop needs <= 300 pops and <= 3^6 words"])
             break
@@ -341,16 +426,7 @@ def run_multiple_oracle(inp):
         if k >= 1 and (got != want or any(c > 1 for c in got.values())):
             bad.append(["multiple-language", k, sorted(got.elements())[:8], sorted(want.elements())[:8]])
         # the result is itself a coherent automaton: k-step reachable closure, one edge per k-path
-        reach, todo = set(starts), list(starts)
-        E = set()
-        while todo:
-            v = todo.pop()
-            for w, e in ref.lang(v, k):
-                E.add((v, "".join(w), e))
-                if e not in reach:
-                    reach.add(e)
-                    todo.append(e)
-        pb = U.coherence_problems(U.views(B), U.Ref(reach, E))
+        pb = U.coherence_problems(U.views(B), multiple_ref(ref, starts, k))
         if pb:
             bad.append(["multiple-views", k] + pb)
         # walking in the multiple automaton by blocks of k letters = walking in the original
@@ -360,7 +436,7 @@ def run_multiple_oracle(inp):
                 if len(w) % k:
                     continue
                 blocks = ["".join(w[j:j + k]) for j in range(0, len(w), k)]
-                if B.accepts(blocks) != (ref.follow(starts[0], w) is not None):
+                if B.accepts(blocks) != any(ref.follow(x, w) is not None for x in starts):     # any start state is allowed
                     bad.append(["multiple-accepts", k, blocks, B.accepts(blocks)])
                     break
         if list(B.start_vertices) != starts:
@@ -399,12 +475,12 @@ def run_rename_oracle(inp):
             bad.append(["original-changed", m])
         if starts and starts[0] in ref.V:
             for n in range(inp["nmax"] + 1):
-                got = collections.Counter(B.enumerate_fixed_length_paths(n))
+                got = collections.Counter(U.capped(B.enumerate_fixed_length_paths(n)))
                 want_w = collections.Counter("".join(m[l] for l in w) for w, _ in ref.lang(starts[0], n))
                 if got != want_w:
                     bad.append(["rename-language", m, n])
             for w in words_upto(ls, 3):
-                if B.accepts("".join(m[l] for l in w)) != (ref.follow(starts[0], w) is not None):
+                if B.accepts("".join(m[l] for l in w)) != any(x in ref.V and ref.follow(x, w) is not None for x in starts):
                     bad.append(["rename-accepts", m, w])
         C = copy.deepcopy(A)
         C.rename_generators(m, inplace=True)
@@ -483,6 +559,13 @@ def run_rlp_oracle(inp):
             pb = U.coherence_problems(vw, U.Ref(ref.V, kept))
             if pb:
                 bad.append(["rlp-views", root, ties] + pb)
+            if list(H.start_vertices) != [r0]:
+                bad.append(["rlp-start-vertex", root, list(H.start_vertices)])
+            else:
+                hw = collections.Counter(U.capped(H.enumerate_words(3)))
+                want_w = collections.Counter("".join(w) for n in range(4) for w, _ in U.Ref(ref.V, kept).lang(r0, n))
+                if hw != want_w or not H.accepts(""):
+                    bad.append(["rlp-language-from-root", root, ties])
             if ties and kept != on_shortest:
                 bad.append(["rlp-ties", root, sorted(kept, key=repr), sorted(on_shortest, key=repr)])
             if not ties:
@@ -507,38 +590,194 @@ def gen_rlp_oracle(rng, n):
         yield a
 
 
+# ------------------------------------------------------------------ oracle: aliasing between automata
+DERIVE = ["deepcopy", "recurrent", "rename", "multiple1", "multiple2", "multiple3", "even", "rlp_ties", "rlp_tree"]
+
+
+def derive(A, ref, how):
+    if how == "deepcopy":
+        return copy.deepcopy(A)
+    if how == "recurrent":
+        return A.recurrent(inplace=False)
+    if how == "rename":
+        return A.rename_generators({l: l.upper() if l.upper() != l else l.lower() for l in labels_of(ref)}, inplace=False)
+    if how.startswith("multiple"):
+        with U.time_limit(MULT_SECONDS):
+            return A.automaton_multiple(int(how[-1]))
+    if how == "even":
+        with U.time_limit(MULT_SECONDS):
+            return A.even_automaton()
+    return A.remove_long_paths(edge_ties=(how == "rlp_ties"))
+
+
+def snap(A):
+    return json_key(U.canon(U.views(A)))
+
+
+def json_key(x):
+    import json
+    return json.dumps(x, sort_keys=True, default=repr)
+
+
+def mutate_all(B):
+    """edit an automaton in place in every way the class offers (each edit on its own: some may raise)"""
+    edits = []
+    pairs = [(v, w) for v in list(B.vertices()) for w in list(B.neighbors_out(v))]
+    verts = list(B.vertices())
+    edits.append(lambda: B.add_edges([(v, w, "_p") for v, w in pairs]))                   # appends to existing label lists
+    edits.append(lambda: B.add_edges([(v, w, ["_q", "_r"]) for v, w in pairs[:2]], elist=True))
+    edits.append(lambda: B.add_vertices(["_n"]))
+    edits.append(lambda: B.add_edges([("_n", verts[0] if verts else "_n", "_e"), (verts[-1] if verts else "_n", "_m", "_f")]))
+    edits.append(lambda: B.start_vertices.append("_s"))
+    edits.append(lambda: B.start_vertices.__setitem__(0, "_t"))
+    edits.append(lambda: B.delete_vertex(verts[0]))
+    edits.append(lambda: B.delete_vertices(verts[1:2]))
+    edits.append(lambda: B.rename_generators({l: str(l) + "_" for l in {l for _, _, l in B.edges(with_labels=True)}}, inplace=True))
+    edits.append(lambda: B.recurrent(inplace=True))
+    edits.append(lambda: B.add_vertices(["_after"]))
+    for e in edits:
+        try:
+            e()
+        except Exception as ex:
+            if type(ex).__name__ in ("Timeout", "CallTimeout"):
+                raise
+
+
+def run_alias_oracle(inp):
+    bad = []
+    kept = []          # (description, automaton, snapshot, reference-or-None): re-examined at the very end
+    for idx, a in enumerate(inp["autos"]):
+        A, ref = make(a)
+        starts = list(A.start_vertices)
+        ok_start = bool(starts) and set(starts) <= ref.V
+        kept.append((["original", idx], A, snap(A)))
+        for how in DERIVE:
+            if how != "deepcopy" and how != "recurrent" and how != "rename" and not ok_start:
+                continue
+            if how.startswith("multiple") and multiple_pops(ref, starts, int(how[-1]), 200) > 200:
+                continue
+            if how == "even" and multiple_pops(ref, starts, 2, 200) > 200:
+                continue
+            # (a) editing the result must not change the original
+            A1, _ = make(a)
+            before = snap(A1)
+            try:
+                B = derive(A1, ref, how)
+            except U.CallTimeout:
+                bad.append(["did-not-return", idx, how])
+                continue
+            mutate_all(B)
+            if snap(A1) != before:
+                bad.append(["editing-the-result-changed-the-original", idx, how])
+            # (b) editing the original must not change the result
+            A2, _ = make(a)
+            B2 = derive(A2, ref, how)
+            b_before = snap(B2)
+            mutate_all(A2)
+            if snap(B2) != b_before:
+                bad.append(["editing-the-original-changed-the-result", idx, how])
+            # (c) results of one process do not depend on what was built before: compare with the reference, keep for later
+            B3 = derive(A, ref, how)
+            if how.startswith("multiple") or how == "even":
+                k = 2 if how == "even" else int(how[-1])
+                pb = U.coherence_problems(U.views(B3), multiple_ref(ref, starts, k))
+                if pb or list(B3.start_vertices) != starts:
+                    bad.append(["derived-automaton-differs-from-reference", idx, how] + pb)
+            kept.append((["derived", idx, how], B3, snap(B3)))
+    # (d) the constructor neither keeps nor modifies its arguments
+    for idx, a in enumerate(inp["autos"]):
+        init = a["init"]
+        if init["route"] not in ("graph", "out"):
+            continue
+        if init["route"] == "graph":
+            arg = {v: {l: w for l, w in d} for v, d in init["d"]}
+        else:
+            arg = {v: {w: list(ls) for w, ls in d} for v, d in init["d"]}
+        st = list(init["starts"])
+        arg0, st0 = copy.deepcopy(arg), list(st)
+        A = FSA(arg, start_vertices=st, graph_dict=(init["route"] == "graph"))
+        if arg != arg0 or st != st0:
+            bad.append(["constructor-modified-its-argument", idx, init["route"]])
+        before = snap(A)
+        for v in list(arg):
+            if init["route"] == "graph":
+                arg[v]["_z"] = v
+            else:
+                for w in arg[v]:
+                    arg[v][w].append("_z")
+                arg[v]["_w"] = ["_y"]
+        arg["_k"] = {}
+        st.append("_s")
+        if snap(A) != before:
+            bad.append(["editing-the-constructor-argument-changed-the-automaton", idx, init["route"]])
+        arg1, st1 = copy.deepcopy(arg), list(st)
+        mutate_all(A)
+        if arg != arg1 or st != st1:
+            bad.append(["editing-the-automaton-changed-the-constructor-argument", idx, init["route"]])
+    # (e) nothing built later has touched anything built earlier; the class defaults are still empty
+    for desc, X, s0 in kept:
+        if snap(X) != s0:
+            bad.append(["changed-by-later-constructions"] + desc)
+    E = FSA()
+    if list(E.vertices()) or list(E.start_vertices) or list(E.edges()):
+        bad.append(["FSA()-is-not-empty-any-more", list(E.vertices()), list(E.start_vertices)])
+    return {"bad": bad[:5]}
+
+
+def gen_alias_oracle(rng, n):
+    for _ in range(n):
+        autos = []
+        for _ in range(rng.choice([2, 3, 4])):
+            a = rand_aut(rng)
+            if rng.random() < 0.3 and a["init"]["route"] in ("graph", "out"):
+                a["init"]["starts"] = a["init"]["starts"] + [rng.choice(U.VS)]      # several start vertices
+            autos.append(a)
+        yield {"autos": autos}
+
+
+
 CLAUSES = [
-    Clause("lang_corr", "corr", gen_lang_corr, run_queries, judge_queries, lean=lean_queries,
+    Clause("lang_corr", "corr", gen_lang_corr, U.bounded(run_queries), judge_queries, lean=lean_queries,
            site="fsa.FSA.follow_word/accepts/initial_*_subword/enumerate_*", budget={"quick": 500, "thorough": 8000},
            what="exhaustive automata (1x3, 2x2), random automata <= 10 states and automata reached by edit histories: follow_word, accepts, "
                 "longest accepted / shortest rejected prefix on all words <= 3 (+ foreign letter), enumerate_fixed_length_paths / enumerate_words "
                 "(n <= 4, every start vertex, a non-vertex) vs the Lean model; final views unchanged"),
-    Clause("builtin_lang_corr", "corr", gen_builtin_lang, run_queries, judge_queries, lean=lean_queries,
+    Clause("builtin_lang_corr", "corr", gen_builtin_lang, U.bounded(run_queries), judge_queries, lean=lean_queries,
            site="fsa.load_builtin + walks", budget={"quick": 18, "thorough": 18},
            what="the 18 built-in automata: the same queries (words <= 2, enumeration n <= 3)"),
-    Clause("ops_corr", "corr", gen_ops_corr, run_queries, judge_queries, lean=lean_queries,
+    Clause("ops_corr", "corr", gen_ops_corr, U.bounded(run_queries), judge_queries, lean=lean_queries,
            site="fsa.FSA.automaton_multiple/rename_generators/recurrent/remove_long_paths",
-           budget={"quick": 300, "thorough": 6000},
+           budget={"quick": 200, "thorough": 6000},
            what="automaton_multiple k=0..4 (views and enumeration), rename (permutation, fresh letters, incomplete map, non-injective map), "
                 "recurrent, remove_long_paths for every root x edge_ties, each as the three views vs the Lean model; original unchanged"),
-    Clause("lang_oracle", "oracle", gen_lang_oracle, run_lang_oracle,
+    Clause("lang_oracle", "oracle", gen_lang_oracle, U.bounded(run_lang_oracle),
            judge_bad("accepts / follow_word / prefixes / enumerators agree with the reference language, each accepted word listed once"),
            site="fsa.FSA walks and enumerators", budget={"quick": 600, "thorough": 8000},
-           what="reference = set of triples; all words <= 4 over the labels + a foreign letter, all start vertices, n <= 4"),
-    Clause("multiple_oracle", "oracle", gen_multiple_oracle, run_multiple_oracle,
+           what="reference = set of triples; all words <= 4 over the labels + a foreign letter, default start and explicit start vertices, n <= 4, "
+                "with and without states; then a history on the same object — start_vertices reassigned, its list edited in place (setitem, "
+                "insert, append; several start vertices), graph edits — with every query family re-checked after each step"),
+    Clause("multiple_oracle", "oracle", gen_multiple_oracle, U.bounded(run_multiple_oracle),
            judge_bad("L(A_k) = accepted words of length divisible by k, each once; A_k coherent; A unchanged"),
            site="fsa.FSA.automaton_multiple / even_automaton", budget={"quick": 600, "thorough": 8000},
            what="k = 1..4, words up to length 6, even_automaton = multiple(2), block-wise accepts on A_k"),
-    Clause("rename_oracle", "oracle", gen_rename_oracle, run_rename_oracle,
+    Clause("rename_oracle", "oracle", gen_rename_oracle, U.bounded(run_rename_oracle),
            judge_bad("renamed language = letterwise image; original unchanged unless inplace"),
            site="fsa.FSA.rename_generators", budget={"quick": 400, "thorough": 4000},
            what="all injective maps of the labels into labels + fresh letters (<= 12 sampled when more)"),
-    Clause("recurrent_oracle", "oracle", gen_recurrent_oracle, run_recurrent_oracle,
+    Clause("recurrent_oracle", "oracle", gen_recurrent_oracle, U.bounded(run_recurrent_oracle),
            judge_bad("recurrent() = greatest sub-automaton in which every vertex has an incoming and an outgoing edge (brute force over subsets)"),
            site="fsa.FSA.recurrent", budget={"quick": 800, "thorough": 8000},
            what="brute-force greatest fixed point over all vertex subsets; inplace and copy variants"),
-    Clause("rlp_oracle", "oracle", gen_rlp_oracle, run_rlp_oracle,
+    Clause("rlp_oracle", "oracle", gen_rlp_oracle, U.bounded(run_rlp_oracle),
            judge_bad("remove_long_paths keeps exactly the edges with dist(head) = dist(tail)+1 (edge_ties) / a spanning tree of them (no ties)"),
            site="fsa.FSA.remove_long_paths", budget={"quick": 600, "thorough": 6000},
-           what="independent BFS distances, every root, both edge_ties settings, original unchanged"),
+           what="independent BFS distances, every root, both edge_ties settings, original unchanged; the result starts at the root and enumerates its language"),
+    Clause("alias_oracle", "oracle", gen_alias_oracle, U.bounded(run_alias_oracle),
+           judge_bad("automata of one process are independent objects: editing a derived automaton (views or start list) never changes the original, "
+                     "and vice versa; the constructor neither keeps nor modifies its arguments; later constructions never change earlier automata"),
+           site="fsa.FSA.__init__/recurrent/rename_generators/automaton_multiple/even_automaton/remove_long_paths + copy.deepcopy",
+           budget={"quick": 60, "thorough": 1500},
+           what="2-4 automata per case built and derived (deepcopy, recurrent, rename, multiple 1-3, even, remove_long_paths x2) in ONE process; every "
+                "in-place edit (parallel labels, elist, vertices, edges, start list append/assign, delete, rename, recurrent) applied to result / "
+                "original / constructor argument; all earlier snapshots re-examined at the end; k-multiples compared with the reference closure"),
 ]
